@@ -1,4 +1,5 @@
 //! Reference models: written from the property statements and the documented formats,
 //! independently of the implementation.
+pub mod deadline;
 pub mod routes;
 pub mod wire;
